@@ -12,12 +12,12 @@ import (
 // ---------- fakes ----------
 
 type verifConsumer struct {
-	got      []Pack
-	closed   int
-	panicAt  int // panic when receiving the panicAt-th pack (1-based); 0 = never
-	closeAt  int // after this many packs, close the consumption (to end the loop)
+	got         []Pack
+	closed      int
+	panicAt     int // panic when receiving the panicAt-th pack (1-based); 0 = never
+	closeAt     int // after this many packs, close the consumption (to end the loop)
 	closePanics bool
-	c        *consumption
+	c           *consumption
 }
 
 func (v *verifConsumer) Consume(p Pack) {
@@ -73,8 +73,8 @@ func verifFill(q *queue.SyncQueue, n int) {
 		q.Push(&rtp.Packet{})
 	}
 }
-func verifFillStub(q *queue.SyncQueue, n int)    { verifQ.n = n }
-func verifQLenStub(q *queue.SyncQueue) int       { return verifQ.n }
+func verifFillStub(q *queue.SyncQueue, n int) { verifQ.n = n }
+func verifQLenStub(q *queue.SyncQueue) int    { return verifQ.n }
 func verifQPushStub(q *queue.SyncQueue, e queue.Elem) {
 	verifQ.n++
 	verifQ.pushed++
@@ -129,8 +129,8 @@ func VerifBacklogInvariant() {
 	G := symapi.Int("G")
 	R := symapi.Int("R")
 	n := symapi.Int("n")
-	o := symapi.Int("o")   // packets offered since the last key packet (incl. it)
-	sq := symapi.Int("s")  // of those, enqueued
+	o := symapi.Int("o")  // packets offered since the last key packet (incl. it)
+	sq := symapi.Int("s") // of those, enqueued
 	disc := symapi.Bool("discarding")
 	symapi.Assume(G >= 1 && G <= 4096 && R >= 0 && R <= 1<<16 && n >= 0 && n <= 1<<20)
 	M := c.maxQLen
